@@ -364,6 +364,10 @@ def program_src(pkg, op):
         L += ["// Responses:"] + ["//   " + r for r in resp]
     src = META.replace("PKG", pkg) + '\nimport "fmt"\n\nvar _ = fmt.Sprint\n' + MODELS_SRC
     src += "\n// handler registration\nfunc register() {\n\t" + "\n\t".join(L) + "\n\t_ = fmt.Sprint()\n}\n"
+    if "companion_operation" in op["blocks"]:
+        C = ["// swagger:operation GET /companions companions listCompanions", "//", "// Lists the companions.", "//", "// ---", "// produces:", "// - application/json",
+             "// parameters:", "// - name: climit", "//   in: query", "//   type: integer", "//   required: false", "// responses:", "//   '200':", "//     description: ok"]
+        src += "\n// companion handler\nfunc companions() {\n\t" + "\n\t".join(C) + "\n\t_ = fmt.Sprint()\n}\n"
     if op["params"]:
         src += "\n// OpParams are the parameters.\n//\n// swagger:parameters %s\ntype OpParams struct {\n%s}\n" % (op["id"], param_fields(op["params"], op["spell"]))
     return src
